@@ -19,7 +19,7 @@ def run(ctx):
     ctx.assumptions += [
         "PointerOK admits the value being read, the innermost open container, and (for purely structural errors) that container's parent",
         "OffsetOK: last complete token end <= ByteOffset <= first dead byte (or end of a truncated text)",
-        "positions of the Encoder are decided by C06's check (Trace_Encoder compares OutputOffset/Stack* after each call)",
+        "positions of the Encoder: Trace_Encoder compares OutputOffset/StackDepth/StackIndex/StackPointer after each call with Encoder.tla, also across write faults",
     ]
     # --- Pointer laws
     r = ctx.tlc("MC_Pointer", capture_lines=False, invariants=("Laws", "EmitInv"),
@@ -42,5 +42,8 @@ def run(ctx):
                              "case": recs[x[0]], "expected": x[2]} for x in rej], confirm=ctx.confirm_tv)
     n = 800 if ctx.quick else 15000
     ctx.tv("dec", "Trace_Decoder", {"seed": ctx.seed, "n": n, "mode": "c16"}, consts={"MaxD": 10000})
+    # --- encoder positions (OutputOffset, Stack*) after every call, also across write faults
+    ne = 120 if ctx.quick else 3000
+    ctx.tv("enc", "Trace_Encoder", {"seed": ctx.seed, "n": ne, "mode": "c07", "prop": "C16"}, consts={"MaxD": 10000})
     ctx.cov["distinct_nontrivial"] = int(summ.get("cases", 0)) + int(s.get("cases", 0)) + n
     ctx.cov["rule"] = "distinct call programs x documents (positions after every call) + distinct pointer token lists + generated/mutated texts with the error position of every rejected call"
